@@ -145,7 +145,7 @@ def run(m, chk):
         "is a bare node parameter), dependence of the committed points / weights on nodes, old knot vector, old points and old weights. "
         "That the matrix is Boehm's (function preservation) and the multiset union of knots are not decided."
     )
-    chk.decides = ["V1", "X-ASSERT", "COMMIT-LAST", "NO-INPLACE-ELEM", "D", "DEP-MAY of committed state"]
+    chk.decides = ["V1", "X-ASSERT", "COMMIT-LAST", "NO-INPLACE-ELEM", "D", "DEP-MAY of committed state", 'PRECHECK (zero-test of new weights before the commit)', 'MULT-KEEP (inserted nodes keep their multiplicity)']
     chk.not_decided = ["function preservation (the insertion matrix is Boehm's)", "new knot vector = sorted multiset union"]
     chk.assume("a setter's validation of an already computed value of the right length is not modelled as a failure point")
     c03.v1(r, chk)
